@@ -396,7 +396,22 @@ def r20_4(ctx):
               'line_to(a.from().x, a.from().y)', 'line_to arguments are (%s, %s), expected the arc start a.from()' % (fmt(b, lt[2][1]), fmt(b, lt[2][2])))
     ctx.check(an.cfg.dominates(lbi, fbi) and lbi != fbi, R, key + '|line-before-curve', call_line(b, lbi), 'line_to precedes the curve', 'the line_to to the arc start does not precede the curve on every path')
     okp, pth = an.cfg.must_pass_through(0, set([lbi]))
-    okq, pth2 = an.cfg.must_pass_through(0, set([fbi]))
+    # the curve may be left out for a sweep of exactly zero (an arc over no angle is its starting point: the line_to
+    # alone); nothing else lets a path skip it
+    zero_sweep = set()
+    for si, t in b.terminators('switch'):
+        if si not in an.cfg.reach or t.get('ty') != 'bool':
+            continue
+        c = strip_all(an.term_at(si, len(b.blocks[si]['st']), t['o']))
+        neg = False
+        while c[0] == 'un' and c[1] == 'Not':
+            c, neg = strip_all(c[2]), not neg
+        if c[0] == 'bin' and c[1] in ('Eq', 'Ne') and ((strip_all(c[2]) == P(6) and const_val(strip_all(c[3])) == 0.0) or (strip_all(c[3]) == P(6) and const_val(strip_all(c[2])) == 0.0)):
+            eq_true = (c[1] == 'Eq') != neg
+            false_t = [tt for v, tt in t['targets'] if v == '0']
+            if false_t and false_t[0] != t['otherwise']:
+                zero_sweep.add(t['otherwise'] if eq_true else false_t[0])
+    okq, pth2 = an.cfg.must_pass_through(0, set([fbi]) | zero_sweep)
     ctx.check(okp and okq, R, key + '|line and curve on every path', call_line(b, lbi), 'every returning path emits the line to the arc start and the curve',
               'arc() can return without emitting the line_to to its starting point or the curve (blocks %s): e.g. an early return for a zero sweep drops the required line from the current point to the arc\'s start and leaves the current point stale' % (pth or pth2))
     ctx.check(strip_all(fe[2][0]) == at, R, key + '|curve-of-arc', call_line(b, fbi), 'curve is generated from the same Arc', 'for_each_quadratic_bezier is not called on the Arc built from the parameters')
